@@ -1679,34 +1679,34 @@ fn main() {
             "a JSON null is accepted only under keys that are Option or PhantomData fields of the crate's structs",
         ],
         families: vec![
-            Family::new("dense_shapes", 640, 12800, dense_shapes).exhaustive(true, true),
-            Family::new("dense_random", 600, 12000, dense_random),
-            Family::new("linear", 480, 9600, linear),
-            Family::new("ridge", 480, 9600, ridge),
-            Family::new("lasso", 480, 9600, lasso),
-            Family::new("elastic_net", 480, 9600, elastic_net),
-            Family::new("logistic", 480, 9600, logistic),
-            Family::new("knn_classifier", 640, 12800, knn_classifier),
-            Family::new("knn_regressor", 640, 12800, knn_regressor),
-            Family::new("tree_classifier", 600, 12000, tree_classifier),
-            Family::new("tree_regressor", 600, 12000, tree_regressor),
-            Family::new("forest_classifier", 600, 12000, forest_classifier),
-            Family::new("forest_regressor", 600, 12000, forest_regressor),
-            Family::new("nb_gaussian", 480, 9600, nb_gaussian),
-            Family::new("nb_bernoulli", 600, 12000, nb_bernoulli),
-            Family::new("nb_multinomial", 600, 12000, nb_multinomial),
-            Family::new("nb_categorical", 600, 12000, nb_categorical),
-            Family::new("svc", 960, 19200, svc),
-            Family::new("svr", 960, 19200, svr),
-            Family::new("kmeans", 480, 9600, kmeans),
-            Family::new("dbscan", 800, 16000, dbscan),
-            Family::new("pca", 800, 16000, pca),
-            Family::new("truncated_svd", 480, 9600, truncated_svd),
-            Family::new("cover_tree", 640, 12800, cover_tree),
-            Family::new("linear_search", 800, 16000, linear_search),
-            Family::new("distances", 720, 14400, distances),
-            Family::new("kernels", 480, 9600, kernels),
-            Family::new("params", 240, 4800, params),
+            Family::new("dense_shapes", 640, 32000, dense_shapes).exhaustive(true, true),
+            Family::new("dense_random", 600, 30000, dense_random),
+            Family::new("linear", 480, 24000, linear),
+            Family::new("ridge", 480, 24000, ridge),
+            Family::new("lasso", 480, 24000, lasso),
+            Family::new("elastic_net", 480, 24000, elastic_net),
+            Family::new("logistic", 480, 24000, logistic),
+            Family::new("knn_classifier", 640, 32000, knn_classifier),
+            Family::new("knn_regressor", 640, 32000, knn_regressor),
+            Family::new("tree_classifier", 600, 30000, tree_classifier),
+            Family::new("tree_regressor", 600, 30000, tree_regressor),
+            Family::new("forest_classifier", 600, 30000, forest_classifier),
+            Family::new("forest_regressor", 600, 30000, forest_regressor),
+            Family::new("nb_gaussian", 480, 24000, nb_gaussian),
+            Family::new("nb_bernoulli", 600, 30000, nb_bernoulli),
+            Family::new("nb_multinomial", 600, 30000, nb_multinomial),
+            Family::new("nb_categorical", 600, 30000, nb_categorical),
+            Family::new("svc", 960, 48000, svc),
+            Family::new("svr", 960, 48000, svr),
+            Family::new("kmeans", 480, 24000, kmeans),
+            Family::new("dbscan", 800, 40000, dbscan),
+            Family::new("pca", 800, 40000, pca),
+            Family::new("truncated_svd", 480, 24000, truncated_svd),
+            Family::new("cover_tree", 640, 32000, cover_tree),
+            Family::new("linear_search", 800, 40000, linear_search),
+            Family::new("distances", 720, 36000, distances),
+            Family::new("kernels", 480, 24000, kernels),
+            Family::new("params", 240, 12000, params),
         ],
         min_nontrivial: 2500,
         case_timeout_s: 120,
